@@ -419,6 +419,24 @@ func c02KnownNonNil(fn *ssa.Function, v ssa.Value, ret *ssa.Return) bool {
 			return true // ctx.Err() after <-ctx.Done()
 		}
 	}
+	// a wrapping constructor (nil -> nil, non-nil -> non-nil, e.g. newCopyError)
+	// applied to an error that is known non-nil here
+	if call, ok := v.(*ssa.Call); ok {
+		if g, off := c02CalleeOf(call); g != nil && g != fn {
+			for i, a := range call.Call.Args {
+				prm := c02ArgParam(g, off, i)
+				if prm == nil || !isErrorType(a.Type()) {
+					continue
+				}
+				if _, isCall := a.(*ssa.Call); isCall && a == v {
+					continue
+				}
+				if ok, _ := c02MapsError(g, prm, nil); ok && c02KnownNonNil(fn, a, ret) {
+					return true
+				}
+			}
+		}
+	}
 	return false
 }
 
@@ -1413,6 +1431,12 @@ func c02ErrIdentities(p *Prog, call ssa.CallInstruction, argOf map[*ssa.Paramete
 		return out
 	}
 	if g, off := c02CalleeOf(call); g != nil && StaticCallee(call) != nil {
+		// an immediately applied func literal of the calling function is a
+		// function value, not a named helper
+		literal := g.Parent() != nil && g.Parent() == call.Parent()
+		if _, isMC := cc.Value.(*ssa.MakeClosure); literal && isMC {
+			return c02FnErrIdentities(p, g, nil, depth+1, inHelper...)
+		}
 		binding := map[*ssa.Parameter]ssa.Value{}
 		for i, a := range cc.Args {
 			if prm := c02ArgParam(g, off, i); prm != nil {
